@@ -30,7 +30,7 @@ SHARED = {"int64", "float64", "str", "bool", "datetime64[ns]", None}
 
 
 @st.composite
-def strat_case(draw, parsers="some", containers=("df", "df", "lf_full"), drop_rate=0, subsample_rate=0):
+def strat_case(draw, parsers="some", containers=("df", "df", "lf_full"), drop_rate=0, subsample_rate=0, regex_rate=0):
     case = copy.deepcopy(draw(c08.shared_case()))
     case.pop("lazy_container", None)
     if parsers == "none" and case.get("parser_ops"):
@@ -41,6 +41,15 @@ def strat_case(draw, parsers="some", containers=("df", "df", "lf_full"), drop_ra
         case.update(c08._add_parsers(draw, base))
         if case["spec"].get("strict") is False and draw(st.integers(0, 2)) == 0:
             case["spec"]["strict"] = "filter"
+    if regex_rate and draw(st.integers(1, 10)) <= regex_rate:
+        # one present column is declared through a regular expression (without built-in checks: polars documents
+        # those as unsupported on regex-selected columns); parsing options on it must still work
+        names = [t["name"] for t in case["table"]["columns"]]
+        cands = [c for c in case["spec"]["columns"] if c["name"] in names and c["name"] not in (case["spec"].get("unique") or [])]
+        if cands:
+            c = draw(st.sampled_from(cands))
+            c["name"], c["regex"], c["checks"] = "^" + c["name"] + "$", True, []
+            case["regex"] = True
     case["container"] = draw(st.sampled_from(list(containers)))
     case["lazy"] = draw(st.booleans())
     n = sp.table_nrows(case["table"])
@@ -245,6 +254,8 @@ def base_labels(ev, case):
     ev.labels.append("lazy" if case.get("lazy") else "eager")
     for op in sorted(set(case.get("parser_ops", []))):
         ev.labels.append("op=" + op)
+    if case.get("regex"):
+        ev.labels.append("regex-column")
     if case["spec"].get("drop_invalid_rows"):
         ev.labels.append("drop_invalid_rows")
     if case.get("opts"):
@@ -348,9 +359,12 @@ def eval_c03(case):
     s2 = sp.polars_schema(stripped)
     o2 = fp.outcome(lambda: s2.validate(res_df, lazy=True))
     if o2["kind"] in ("SchemaError", "SchemaErrors"):
-        cols = sorted({str(getattr(getattr(x, "schema", None), "name", None)) for x in getattr(o2["exc"], "schema_errors", [o2["exc"]])})
+        errs2 = getattr(o2["exc"], "schema_errors", [o2["exc"]])
+        cols = sorted({str(getattr(getattr(x, "schema", None), "name", None)) for x in errs2})
+        data_checks = sorted({str(getattr(x.check, "name", x.check)) for x in errs2
+                              if getattr(x.reason_code, "name", "") == "DATAFRAME_CHECK"})
         ev.add(f"returned-object-violates-schema{drop}:" + "+".join(o2.get("reasons", [])),
-               {"ops": ops, "features": feats, "columns": cols, "msg": str(o2.get("exc"))[:400]})
+               {"ops": ops, "features": feats, "columns": cols, "data_checks": data_checks, "msg": str(o2.get("exc"))[:400]})
     elif o2["kind"] == "internal":
         ev.labels.append("strip-validate-internal")
     # (1b) reference model on the object read back
@@ -720,8 +734,13 @@ def _kf_c03_nonrow(family, case, disc):
     if not rest:
         return True
     # a failing scalar-output check (unique_values_eq) has no rows to drop either
-    return rest == {"DATAFRAME_CHECK"} and bool(_scalar_checks(case)) and \
-        set(d.get("columns", [])) - {"None"} <= _scalar_checks(case)
+    if rest != {"DATAFRAME_CHECK"} or not _scalar_checks(case):
+        return False
+    if "errors" in d:  # reference variant: [[reason, where, check], rows]
+        dc = [e for e in d["errors"] if e[0][0] == "DATAFRAME_CHECK"]
+        return bool(dc) and all("unique_values_eq" in str(e[0][2]) and e[1] is None for e in dc)
+    dc = d.get("data_checks", [])
+    return bool(dc) and all(c.startswith("unique_values_eq") for c in dc)
 
 
 @known.finding("C06/polars-drop_invalid_rows-scalar-or-subsampled-check-output")
